@@ -25,8 +25,8 @@ package main
 //            restore, restore --verify, copy (as --from-repo source), key
 //            list, list snapshots/packs/index/locks: 23 command lines, all with
 //            --no-lock.
-//   quick:    all 65 command lines on S2, 10 key ones on S1 and S3 (85 runs);
-//   thorough: all command lines on all four states (260 runs).
+//   quick:    all 67 command lines on S2, the 10 key ones on S3 (77 runs);
+//   thorough: all command lines on all four states (268 runs).
 //
 // Oracle: (1) the recursive listing (path, SHA-256; directories too) of the
 // repository directory is identical before and after the command; (2) the
@@ -419,9 +419,9 @@ func TestVerif_C39(t *testing.T) {
 	dstReady := false
 
 	cmds := verifC39Commands()
-	stateNames := []string{"unused", "snapshots", "duplicates"}
+	stateNames := []string{"unused", "duplicates"}
 	if r.Thorough() {
-		stateNames = append(stateNames, "damaged")
+		stateNames = []string{"unused", "snapshots", "duplicates", "damaged"}
 	}
 	seq := 0
 	for _, sn := range stateNames {
@@ -430,6 +430,11 @@ func TestVerif_C39(t *testing.T) {
 				continue
 			}
 			ck := sn + "|" + c.id
+			if !r.Thorough() && sn != "unused" {
+				// quick tier: the few key commands of a secondary state run in one shard
+				// (building a state costs more than the commands)
+				ck = "state=" + sn
+			}
 			if !r.Case(ck) {
 				continue
 			}
